@@ -264,6 +264,8 @@ func initTopicP2P(t *Topic, sreg *ClientComMessage) error {
 		}
 		t.lastID = stopic.SeqId
 		t.delID = stopic.DelId
+		// The topic of a suspended user stays read-only across unload and restart.
+		t.markReadOnly(stopic.State == types.StateSuspended)
 	}
 
 	// t.owner is blank for p2p topics
@@ -661,6 +663,8 @@ func initTopicGrp(t *Topic) error {
 	}
 	t.lastID = stopic.SeqId
 	t.delID = stopic.DelId
+	// The topic of a suspended owner stays read-only across unload and restart.
+	t.markReadOnly(stopic.State == types.StateSuspended)
 
 	// Initialize channel for receiving session online updates.
 	t.supd = make(chan *sessionUpdate, 32)
